@@ -1036,6 +1036,7 @@ func (in *Interp) poolGet(fr *frame, p *Value) Value {
 		it := st.items[pick]
 		st.items = append(st.items[:pick:pick], st.items[pick+1:]...)
 		in.event("pool.Get.reuse")
+		in.onPoolGet(it)
 		return it
 	}
 	// New
